@@ -287,6 +287,14 @@ func (ex *Exec) havocEverythingBut(st *State, keys []string) {
 			n := "H|" + key + "|" + lf.Name
 			keep[n] = st.heap(n, ArraySort(RefSort, lf.Sort))
 		}
+		// arrays of T and of *T (backing arrays of []T / []*T, array-typed fields) belong to
+		// the data structures built from T: preserved as well
+		for _, et := range []types.Type{t, types.NewPointer(t)} {
+			names, sorts := elemFamilies(et)
+			for i, n := range names {
+				keep[n] = st.heap(n, sorts[i])
+			}
+		}
 	}
 	for n, t := range st.Heap {
 		if strings.HasPrefix(n, "G|ghost") {
@@ -752,6 +760,14 @@ func (ex *Exec) applyContract(fr *Frame, st *State, ct *Contract, fn *ssa.Functi
 		ex.addOblSk("pre", fmt.Sprintf("%s.%d", ct.FnName, i+1), pos, st, g, env.skolems, rq.Src)
 		st.assume(g)
 	}
+	// extra call-site obligations of the function under verification (at_call clauses)
+	if ex.contract != nil && fr.fn == ex.fn && fn != nil {
+		for i, rq := range ex.contract.AtCall[fn.Name()] {
+			env := mkEnv(st, nil, false)
+			g := env.evalBool(rq.Expr)
+			ex.addOblSk("atcall", fmt.Sprintf("%s.%d", fn.Name(), i+1), pos, st, g, env.skolems, rq.Src)
+		}
+	}
 	pre := st.clone()
 	// havoc the frame
 	touched := false
@@ -771,6 +787,19 @@ func (ex *Exec) applyContract(fr *Frame, st *State, ct *Contract, fn *ssa.Functi
 	{
 		if _, isT := res.(TupV); !isT || len(res.(TupV).E) > 0 {
 			st.assume(st.wf(res))
+		}
+	}
+	// ghost assignments of the callee: its ghost variables take the stated values
+	if len(ct.GhostSets) > 0 {
+		var vals []*Term
+		for _, gs := range ct.GhostSets {
+			env := mkEnv(st, pre, true)
+			ex.bindResults(env, sig, res)
+			vals = append(vals, env.eval(gs.Expr).(Sc).T)
+		}
+		for i, gs := range ct.GhostSets {
+			st.logWrite(&WriteRec{Kind: "global", Key: "ghost." + gs.Name})
+			st.setHeap("G|ghost."+gs.Name+"|", vals[i])
 		}
 	}
 	if ct.Pure {
